@@ -170,21 +170,27 @@ def run_tlc(module, cfg, consts=None, workers=None, timeout=900, extra=None, sim
     return r
 
 
-def run_tlapm(module, timeout=900):
+def run_tlapm(module, timeout=1500):
     """Checks the TLAPS proofs of spec/<module>.tla from scratch (no fingerprint cache).  A proof that
-    does not go through says something about the specification, never about the code: Infra."""
+    does not go through says something about the specification, never about the code: Infra.
+    The back ends work under per-obligation time limits, which a busy machine can exhaust: the time
+    limits are stretched, and obligations that still fail get a second, longer attempt (the
+    fingerprints of the first attempt are kept, so only those are retried)."""
     d = spec_dir()
     shutil.rmtree(os.path.join(d, ".tlacache"), ignore_errors=True)
     t0 = time.time()
-    try:
-        p = subprocess.run(["tlapm", "--threads", str(NCPU), "--cleanfp", module + ".tla"], cwd=d, stdout=subprocess.PIPE,
-                           stderr=subprocess.STDOUT, text=True, timeout=timeout, env=dict(os.environ))
-    except subprocess.TimeoutExpired:
-        raise Infra("tlapm timed out on %s" % module)
-    m = re.search(r"All (\d+) obligations? proved", p.stdout or "")
-    if p.returncode != 0 or not m:
-        raise Infra("tlapm did not prove %s:\n%s" % (module, (p.stdout or "")[-2000:]))
-    return dict(module=module, obligations=int(m.group(1)), wall_s=round(time.time() - t0, 2))
+    out = ""
+    for attempt, (stretch, threads) in enumerate(((3, NCPU), (20, max(2, NCPU // 4)))):
+        try:
+            p = subprocess.run(["tlapm", "--threads", str(threads), "--stretch", str(stretch), module + ".tla"], cwd=d,
+                               stdout=subprocess.PIPE, stderr=subprocess.STDOUT, text=True, timeout=timeout, env=dict(os.environ))
+        except subprocess.TimeoutExpired:
+            raise Infra("tlapm timed out on %s" % module)
+        out = p.stdout or ""
+        m = re.search(r"All (\d+) obligations? proved", out)
+        if p.returncode == 0 and m:
+            return dict(module=module, obligations=int(m.group(1)), wall_s=round(time.time() - t0, 2), attempts=attempt + 1)
+    raise Infra("tlapm did not prove %s:\n%s" % (module, "\n".join(l for l in out.splitlines() if not l.startswith(("Called", "Raised", "Re-raised")))[-2000:]))
 
 
 def run_vh(sub, args, race=False, timeout=3600, env=None):
